@@ -46,6 +46,16 @@ def reload_search(tier, variant='three'):
     variant 'slot': two services and a rule on the newcomer; a service that has answered leaves, a differently named one arrives in a
     LATER reload (the only way a vacated slot is reused) - the newcomer must be asked, and nothing its predecessor said may count for it
     (C05/C06/C11).  The observer follows the table in force (World per reload target)."""
+    if variant == 'refuse':
+        # a service that owes an answer is dropped by a reload; its refusal (or OK) arrives afterwards; the request timeout may fire at any point (C02/C03/C05)
+        services = [('a.svc', 'login'), ('b.svc', 'dronecheck')]
+        rules = rules_for(services)
+        tables = {'no-a.conf': services[1:], 'no-b.conf': services[:1], 'none.conf': [], 'orig.conf': services}
+        base = alpha.make([1], data=('H',), ends=('D',), passwords=('x',), replies=('OK', 'NO'), old_replies=(), malformed=(), ghost_replies=(), pbudget=1, dead_probes=False, reannounce=False)
+        alph = lambda st, w: base(st, w) + [('RL', f) for f in tables]
+        files = {n: (lambda md_, t=t: e1.conf_text(md_, services=t, timeout=30, rules=rules)) for n, t in tables.items()}
+        return dict(label='solo/reloads-refuse/login+drone/t30', services=services, rules=rules, timeout=30, ids=[1], alphabet=alph, flags=e1.F_DUMP | e1.F_STATS,
+                    maxdepth=12 if tier != 'quick' else 9, maxstates=40000 if tier != 'quick' else 8000, keep_refs=True, reload_files=files, reload_tables=tables, merge_check=False)
     if variant == 'timeout':
         # the request timeout itself is reloaded (30 s -> none -> 60 s ...) while a client waits; judged: bookkeeping, clean exit, no memory error
         services = G['login+drone']
